@@ -280,7 +280,8 @@ pub fn observe<W: Write>(em: &mut Emitter<W>, suite: &str, grid: u8, case: &Valu
                 .map(|c| {
                     let r = pool.call(&json!({"case": case, "call": {"kind": "louvain", "args": c}}), std::time::Duration::from_secs(10));
                     let (ans, comm) = if r.get("ans").is_some() { (r["ans"].clone(), r["comm"].clone()) } else { (r.clone(), json!({"e": "skipped", "v": []})) };
-                    json!({"weighted": c["weighted"], "res": c["res"], "threshold_e7": c["threshold_e7"], "seed": c["seed"], "ans": ans, "comm": comm})
+                    let order = crate::algo2::louvain_visit_order(&g, c["seed"].as_u64().unwrap_or(0));
+                    json!({"weighted": c["weighted"], "res": c["res"], "threshold_e7": c["threshold_e7"], "seed": c["seed"], "order": order, "ans": ans, "comm": comm})
                 })
                 .collect();
             json!({"runs": runs})
